@@ -209,8 +209,12 @@ def assemble(unit_names, workdir, repo=None):
         u = units[un]
         emit("pub mod %s {\nuse vstd::prelude::*;\n" % un, un, None)
         open_container = None
+        roots = []
         for e in u.entries:
             if isinstance(e, vspec.Verbatim):
+                if getattr(e, 'root', False):
+                    roots.append(e)
+                    continue
                 if e.inside:
                     if open_container is None:
                         raise Undecided("%s:%d: //@ inside without an open impl/trait block" % (u.path, e.line))
@@ -244,6 +248,8 @@ def assemble(unit_names, workdir, repo=None):
         if open_container is not None:
             emit("}\n", un, None)
         emit("} // mod %s\n" % un, un, None)
+        for e in roots:
+            emit(e.text, un, "root@%s:%d" % (os.path.basename(u.path), e.line))
     emit("} // verus!\nfn main() {}\n", None, None)
     path = os.path.join(workdir, 'gen.rs')
     with open(path, 'w') as f:
